@@ -190,7 +190,7 @@ harness(void) {
 
     (void)est;
     vp_ref_block_decode(&rb, blk.data, blk.size);
-    VP_ASSUME(rb.ok); /* shown in mode 0 */
+    VP_ASSERT(rb.ok, "block parses with the reference LevelDB block reader");
 
     contents.data = blk;
     contents.cachable = 0;
